@@ -19,7 +19,7 @@ import (
 
 type PoolAct struct {
 	Kind string `json:"k"`           // send | stop | run | yield
-	Job  string `json:"j,omitempty"` // quick | gated
+	Job  string `json:"j,omitempty"` // quick | gated | stubborn
 }
 
 type PoolPhase struct {
@@ -156,6 +156,11 @@ func (propC16) Gen(r *simrt.Rand, idx int, tier string) any {
 				job := "quick"
 				if gatedP > 0 && r.Intn(4) < gatedP {
 					job = "gated"
+					if r.Intn(3) == 0 {
+						// a job that does not look at its context: it ends when it is done (the gate
+						// opens once every Send of the phase has returned), cancelled or not
+						job = "stubborn"
+					}
 				}
 				acts = append(acts, PoolAct{Kind: "send", Job: job})
 			}
@@ -327,7 +332,7 @@ func (propC16) Exec(x any, choices []int32) RunOut {
 			}
 			w.gate = make(chan struct{})
 			gate := w.gate
-			var wg simrt.WaitGroup
+			var wg, stopWg simrt.WaitGroup
 			first := len(w.jobs)
 			tf0 := simrt.TimerFires()
 			inSend := 0
@@ -347,6 +352,9 @@ func (propC16) Exec(x any, choices []int32) RunOut {
 							if j.kind == "gated" {
 								simrt.Select([]simrt.SelCase{simrt.CaseRecv(gate), simrt.CaseRecv(jctx.Done())}, false)
 							}
+							if j.kind == "stubborn" {
+								simrt.Select([]simrt.SelCase{simrt.CaseRecv(gate)}, false)
+							}
 							j.ends++
 							j.endStep = append(j.endStep, simrt.Step())
 							return nil
@@ -358,9 +366,9 @@ func (propC16) Exec(x any, choices []int32) RunOut {
 			}
 			stopped := false
 			if ph.StopDuring {
-				wg.Add(1)
+				stopWg.Add(1)
 				simrt.GoNamed(fmt.Sprintf("stopper%d", pi), 0, func() {
-					defer wg.Done()
+					defer stopWg.Done()
 					busy := inSend > 0
 					for _, j := range w.jobs[first:] {
 						if j.starts > j.ends {
@@ -377,9 +385,12 @@ func (propC16) Exec(x any, choices []int32) RunOut {
 				})
 				stopped = true
 			}
+			// the gate opens once every Send of the phase has returned - not before: a Send must never
+			// need a job (or a Stop that waits for one) to finish
 			wg.Wait()
 			timerInSend += simrt.TimerFires() - tf0
 			simrt.Close(gate)
+			stopWg.Wait()
 			// quiescence without any further Send: let every timer that is pending fire, nothing else
 			for k := 0; k < 50; k++ {
 				simrt.Quiesce()
